@@ -173,7 +173,8 @@ def red_axioms(ctx: Ctx, r: Red, ground, cands):
     app = r.app(o)
     pat = [app] if (qo and r.outer_rank) else None
     ks = [z3.Int(f"k_{r.id}_{j}") for j in range(len(r.ns))]
-    rng = lambda kk: AND(*[z3.And(zint(k) >= 0, zint(k) < zint(n)) for k, n in zip(kk, r.ns)])
+    lens = [r.length(o, j) for j in range(len(r.ns))]
+    rng = lambda kk: AND(*[z3.And(zint(k) >= 0, zint(k) < zint(n)) for k, n in zip(kk, lens)])
     ink = rng(ks)
     body = lambda oo, kk: r.body(tuple(oo), tuple(kk))
     ax = []
@@ -182,7 +183,7 @@ def red_axioms(ctx: Ctx, r: Red, ground, cands):
         """fn(kk) -> formula; quantified over the bound indices + explicit instances."""
         ax.append(_q(qo + ks, fn(ks)))
         if instances and ground is not None and len(ks) == 1:
-            n = zint(r.ns[0])
+            n = zint(lens[0])
             insts = [z3.IntVal(0), z3.simplify(n - 1)]
             for c in cands:
                 insts.extend([c, c - 1, c + 1])
@@ -208,7 +209,7 @@ def red_axioms(ctx: Ctx, r: Red, ground, cands):
             forall_k(lambda kk: IMPL(AND(app, rng(kk)), body(o, kk)))
             ax.append(_q(qo, IMPL(z3.Not(app), AND(inw, z3.Not(ops.B_(body(o, wk))))), pat))
         return ax
-    n = zint(r.ns[0])
+    n = zint(lens[0])
     if kind == "sum":
         zero = 0
         cc = _count_cond(r, o) if r.dtype == "i" else None
@@ -272,7 +273,7 @@ def sum_ext_axioms(reds, ground_apps=None):
             w = f(*qv)
         else:
             w = z3.Int(name)
-        n1, n2 = zint(r1.ns[0]), zint(r2.ns[0])
+        n1, n2 = zint(r1.length(o1)), zint(r2.length(o2))
         diff = AND(w >= 0, w < n1, r1.body(tuple(o1), (w,)) != r2.body(tuple(o2), (w,)))
         a1, a2 = r1.app(o1), r2.app(o2)
         body = OR(n1 != n2, diff, a1 == a2)
